@@ -211,6 +211,41 @@ static void solver_case(rng_t *r, int q, int p, int L, int deficient)
 	rep_case_done(1, 0, 1);
 }
 
+/* several systems solved with ONE control block (as a long-lived caller would keep it); every earlier solution is checked again
+ * after each later solve, and the second system of a chain takes the first one's solution buffers as its right-hand sides */
+static void solver_chain(rng_t *r, int nsys)
+{
+	if (!rep_case("solver chain of %d systems on one control block", nsys)) return;
+	enum { MAXQ = 24, MAXP = 40, MAXS = 4 };
+	of_linear_binary_code_cb_t cb; memset(&cb, 0, sizeof cb);
+	int L = 1 + (int)rng_below(r, 30); cb.encoding_symbol_length = (UINT32)L;
+	cb.tmp_tab_symbols = malloc(sizeof(void *) * (MAXP + MAXQ + 8));
+	static uint8_t X[MAXS][MAXQ][64]; void *sol[MAXS][MAXQ]; int Q[MAXS]; memset(sol, 0, sizeof sol);
+	for (int sidx = 0; sidx < nsys && sidx < MAXS; sidx++) {
+		int q = 2 + (int)rng_below(r, MAXQ - 2), p = q + (int)rng_below(r, 6), tries = 0; Q[sidx] = q;
+		static uint8_t A[MAXP][MAXQ]; uint64_t rows[MAXP];
+		do { for (int i = 0; i < p; i++) { rows[i] = 0; for (int j = 0; j < q; j++) { A[i][j] = (uint8_t)(rng_below(r, 100) < 45); if (A[i][j]) rows[i] |= 1ULL << j; } } } while ((int)gf2_rank(rows, (unsigned)p, 1) < q && ++tries < 200);
+		if (tries >= 200) break;
+		of_mod2dense *m = of_mod2dense_allocate((UINT32)p, (UINT32)q);
+		for (int i = 0; i < p; i++) for (int j = 0; j < q; j++) if (A[i][j]) of_mod2dense_set(m, (UINT32)i, (UINT32)j, 1);
+		for (int j = 0; j < q; j++) for (int b = 0; b < L; b++) X[sidx][j][b] = (uint8_t)rng_u64(r);
+		void *ct[MAXP], *vt[MAXQ]; memset(vt, 0, sizeof vt);
+		for (int i = 0; i < p; i++) { ct[i] = of_calloc(1, (size_t)L); for (int j = 0; j < q; j++) if (A[i][j]) for (int b = 0; b < L; b++) ((uint8_t *)ct[i])[b] ^= X[sidx][j][b]; }
+		of_status_t st = of_linear_binary_code_solve_dense_system(&cb, m, ct, vt);
+		g_ops++;
+		if (st != OF_STATUS_OK) rep_viol("solver-missed", "system %d of a chain (full column rank %dx%d) reported as unsolvable", sidx, p, q);
+		else for (int j = 0; j < q; j++) { sol[sidx][j] = vt[j]; if (!vt[j] || memcmp(vt[j], X[sidx][j], (size_t)L)) { rep_viol("solver-wrong", "system %d of a chain on one control block: variable %d differs from the planted solution (%dx%d, L=%d)", sidx, j, p, q, L); break; } }
+		for (int i = 0; i < p; i++) { int keep = 0; for (int j = 0; j < q; j++) if (ct[i] && ct[i] == vt[j]) keep = 1; if (ct[i] && !keep) of_free(ct[i]); }
+		of_mod2dense_free(m);
+		/* every earlier solution must still be what it was */
+		for (int e = 0; e < sidx; e++) for (int j = 0; j < Q[e]; j++) if (sol[e][j] && memcmp(sol[e][j], X[e][j], (size_t)L)) { rep_viol("solver-wrong", "the solution of system %d (variable %d) was altered by the solve of system %d on the same control block", e, j, sidx); e = sidx; break; }
+		rep_count("solver_chained_systems", 1);
+	}
+	for (int e = 0; e < MAXS; e++) for (int j = 0; j < MAXQ; j++) if (sol[e][j]) of_free(sol[e][j]);
+	free(cb.tmp_tab_symbols);
+	rep_case_done(1, 0, 1);
+}
+
 int p_c18(void)
 {
 	int T = g_run.thorough; long unit = 0;
@@ -248,6 +283,12 @@ int p_c18(void)
 			uint64_t sub = rng_u64(&r); rng_t rr = rng_make(sub, (uint64_t)s, 99);
 			solver_case(&rr, q, p, L, def);
 		}
+	}
+	for (int u = 0; u < 8; u++, unit++) {
+		rep_unit(unit);
+		if (!rep_unit_mine(unit)) continue;
+		rng_t r = rng_make(g_run.seed, 1885 + (uint64_t)u, 18);
+		for (int s2 = 0; s2 < (T ? 400 : 40); s2++) solver_chain(&r, 2 + (int)rng_below(&r, 3));
 	}
 	/* tall systems: more equations than a 16-bit row index can address (and the 2^15 line) */
 	{
